@@ -64,6 +64,7 @@ class Ctx(object):
         self.local = threading.local()
         self.workload_counts = Counter()
         self.timing = {}
+        self.aux_rng = None  # per-case generator for harness-side choices that must not disturb the case's own stream
 
     # ---- randomness -------------------------------------------------------------------------
     def case_rng(self, workload, idx):
@@ -75,6 +76,7 @@ class Ctx(object):
         self.cur = {'workload': workload, 'idx': int(idx), 'desc': desc}
         self.cases += 1
         self.workload_counts[workload] += 1
+        self.aux_rng = np.random.default_rng(np.random.SeedSequence([self.seed, zlib.crc32(workload.encode()), int(idx), 777]))
         # the library uses the global NumPy RNG in places (tt.rand, sampling): seed it per case
         np.random.seed((self.seed * 1000003 + zlib.crc32(workload.encode()) + idx) % (2 ** 32))
 
